@@ -12,6 +12,7 @@ CONSTANTS FieldKinds <- K_none
           Ascending = FALSE
           MsgIds <- M_one
           Sels <- Sel_none
+          StreamPieces <- P_txt
           MaxGlobal = 0
           MaxScopes = 0
           MaxMsgAttrs = 0
